@@ -21,7 +21,7 @@ DEFAULT_CFG = dict(
     save_every=None, shift=0.0,
 )
 
-TARGETS = {"gauss": targets.ll_gauss, "bimodal": targets.ll_bimodal, "flat": targets.ll_flat, "unequal": targets.ll_unequal, "hole": targets.ll_hole, "sharp": targets.ll_sharp, "sliver": targets.ll_sliver, "weak": targets.ll_weak}
+TARGETS = {"gauss": targets.ll_gauss, "bimodal": targets.ll_bimodal, "flat": targets.ll_flat, "unequal": targets.ll_unequal, "corner": targets.ll_corner, "hole": targets.ll_hole, "sharp": targets.ll_sharp, "sliver": targets.ll_sliver, "weak": targets.ll_weak}
 def _pt_affine32(u):
     return (20.0 * np.asarray(u) - 10.0).astype(np.float32)
 
@@ -39,13 +39,14 @@ class LL:
         self.n = 0
         self.order = []
 
-    def __call__(self, x):
+    def __call__(self, x, offset=0.0, scale=1.0):
+        # `offset` / `scale` are what log_likelihood_args / log_likelihood_kwargs bind (defaults are the identity)
         if self.mode == "vec":
             x = np.asarray(x)
             self.n += len(x)
-            return np.array([self.f(xi) + self.shift for xi in x], dtype=self.dtype)
+            return np.array([self.f(xi) * scale + offset + self.shift for xi in x], dtype=self.dtype)
         self.n += 1
-        v = self.f(x) + self.shift
+        v = self.f(x) * scale + offset + self.shift
         if self.mode == "blobs":
             return v, targets.blob_of(x)
         return v
@@ -97,6 +98,7 @@ def make_sampler(cfg, pool=None):
         periodic=per, reflective=ref, clustering=c["clustering"], normalize=c["normalize"], cluster_every=c["cluster_every"],
         split_threshold=c["split_threshold"], n_max_clusters=c["n_max_clusters"], sample=c["sample"], n_steps=c["n_steps"],
         n_max_steps=c["n_max_steps"], resample=c["resample"], random_state=c["random_state"],
+        log_likelihood_args=c.get("ll_args"), log_likelihood_kwargs=c.get("ll_kwargs"),
     )
     if ev in ("poolobj", "poolobj_blobs"):
         kw["pool"] = pool if pool is not None else OrderedPool()
